@@ -155,7 +155,7 @@ def lex_spec(rng):
         elif r < 0.75:
             line += ";"
         elif states:
-            line += "<" + rng.choice("+-") + rng.choice(states) + ">" + rng.choice([";", "'T%d'" % tok])
+            line += "<" + rng.choice(["+", "-", ""]) + rng.choice(states) + ">" + rng.choice([";", "'T%d'" % tok, "'éé'", "\"T♠\"", "'ID'"])
         else:
             line += ";"
         o.append(line + "\n")
@@ -165,6 +165,7 @@ def lex_spec(rng):
 
 
 LEX_CORPUS = [
+    "%x S\n%%\na <S>'éé'\nb <S>'éé'\n",
     "%%\n[a-z] \"ID\"\n",
     "%x COMMENT\n%%\n.                       \"TEXT\"\n<COMMENT,INITIAL>/\\*    <+COMMENT>;\n<COMMENT>.              ;\n<INITIAL,COMMENT>\\n             ;\n<COMMENT>\\*/            <-COMMENT>;\n",
     "%grmtools{!dot_matches_new_line, octal, size_limit: 1048576}\n%%\n\\141 'a'\n. 'ANY'\n[\\n] 'NL'\n",
